@@ -71,6 +71,31 @@ func simSeen(cs *compState) {
 				cs.Enter(actor, "SeencheckItem(children)")
 				seencheck.SeencheckItem(seed)
 				cs.Leave(actor)
+				if from != models.ItemGotChildren || !cs.Chance(1, 2) {
+					continue
+				}
+				// several assets redirect: their targets (not children: checked as "seed") share one level and one call
+				nt := 0
+				for j, ch := range seed.GetChildren() {
+					if ch.GetStatus() != models.ItemFresh || cs.Chance(1, 4) {
+						continue
+					}
+					tu := &models.URL{Raw: pool[cs.Draw(len(pool))]}
+					if err := preprocessor.NormalizeURL(tu, ch.GetURL()); err != nil {
+						continue
+					}
+					if ch.AddChild(models.NewItem(fmt.Sprintf("%s-t-%d-%d", actor, r, j), tu, ""), models.ItemGotRedirected) == nil {
+						nt++
+					}
+				}
+				if nt == 0 {
+					continue
+				}
+				k.Probe("c08-redirect-targets-in-one-call")
+				k.Park(actor, "comp.targets.begin", r)
+				cs.Enter(actor, "SeencheckItem(targets)")
+				seencheck.SeencheckItem(seed)
+				cs.Leave(actor)
 			}
 		})
 	}
